@@ -223,7 +223,7 @@ def run(ctx):
         return
     quick = ctx.quick
     depth = 8 if quick else 32
-    n_rt, n_by, n_sc, n_ct, n_leaf = (900, 700, 200, 250, 150) if quick else (16000, 12000, 3000, 5000, 3000)
+    n_rt, n_by, n_sc, n_ct, n_leaf = (6000, 5000, 1200, 600, 300) if quick else (100000, 80000, 20000, 20000, 10000)
     seen, nontrivial = set(), set()
     dist = {"rt": {}, "by": {}, "mut": {}, "src": {}, "depth": {}}
     counters = {"rt_accepted": 0, "rt_rejected": 0, "rt_mutated_accepted": 0, "by_value": 0, "by_error": 0,
